@@ -1153,7 +1153,7 @@ class MainTransformer(object):
             parent = chain[-1] if chain else None
             if (block and parent):
                 virtual_annotation = block.annotations.get(ANN_VFUNC)
-                if virtual_annotation and not node.is_method:
+                if virtual_annotation and node not in getattr(parent, 'methods', []):
                     # Only a method can invoke a virtual method of its type
                     message.warn_node(node,
                         "'%s' annotation is only valid on methods" % (ANN_VFUNC, ))
